@@ -9,6 +9,7 @@ the independent implementation; the normalised sync and async transcripts are co
 from __future__ import annotations
 
 import asyncio
+import contextlib
 import typing as t
 import uuid
 
@@ -119,7 +120,10 @@ def run_online(spec, rec: Recorder):
                 sd_bytes = rsd.target_sd(rsd.canonical_sid_from_string(sid))
                 if op == "unprotect":
                     mode = "public" if rng.random() < 0.4 else "nonce"
-                    blob = online.ref_blob(rng, rkid, rk, sid, (l0,) + pos, mode, pt, in_envelope=rng.random() < 0.7, domain=cfg.domain, forest="forest-root.example" if i % 2 else cfg.forest)
+                    lz = mode == "public" and a == "DH" and i % 2 == 0
+                    if lz:
+                        rec.count("leading_zero_dh_secret_blobs")
+                    blob = online.ref_blob(rng, rkid, rk, sid, (l0,) + pos, mode, pt, in_envelope=rng.random() < 0.7, domain=cfg.domain, forest="forest-root.example" if i % 2 else cfg.forest, leading_zero_secret=lz)
                     expect_gk = (sd_bytes, rkid, l0, pos[0], pos[1])
                     call_sync = lambda: dpapi_ng.ncrypt_unprotect_secret(blob, cache=dpapi_ng.KeyCache(), **kw)  # noqa: E731
                     call_async = lambda: dpapi_ng.async_ncrypt_unprotect_secret(blob, cache=dpapi_ng.KeyCache(), **kw)  # noqa: E731
@@ -133,12 +137,19 @@ def run_online(spec, rec: Recorder):
                     call_async = lambda: dpapi_ng.async_ncrypt_protect_secret(pt, sid, root_key_identifier=rkid if give_rkid else None, cache=dpapi_ng.KeyCache(), **pkw)  # noqa: E731
                 results = {}
                 transcripts = {}
+                forced = None
+                if op == "protect" and cfg.policy == "public" and a == "DH" and i % 2 == 1:
+                    # steer the library's ephemeral DH key so that the shared secret starts with a zero byte
+                    nbytes = -(-rk.private_key_length // 8)
+                    if nbytes >= 32 and nbytes != 32:
+                        forced = {nbytes: [online.dh_ephemeral_for_leading_zero_secret(rng, online.server_private(rk, rkid, sid, cfg.now)).to_bytes(nbytes, "big") for _ in range(2)]}
+                        rec.count("leading_zero_dh_secret_protects")
                 for api, call in (("sync", call_sync), ("async", call_async)):
                     since = len(core.transcripts)
                     dc.connect_log.clear()
                     dns_.queries.clear()
                     try:
-                        with mon.NET.guard(allow_loopback=True):
+                        with mon.NET.guard(allow_loopback=True), (mon.ENTROPY.record(forced) if forced else contextlib.nullcontext()):
                             out = call() if api == "sync" else loop.run_until_complete(asyncio.wait_for(call(), 60))
                         results[api] = ("ok", out)
                     except asyncio.TimeoutError:
